@@ -1,9 +1,13 @@
-(* Property C04: multi-controlled one-qubit gates.  PARTIAL: the recursion step of Qdmcu (Barenco Lemma 7.5) and the
-   fourth-root identity behind Ldmcsu._compute_gate_a are theorems; the V-chains they use are C05's theorems; the rest
-   (Ldmcu ladder, eigenbasis branch, MCU approximation, multi-target) is corresponded by monitors and evaluated. *)
+(* Property C04: multi-controlled one-qubit gates.
+   Ldmcsu (linear-depth multi-controlled SU(2)), branches 'main or secondary diagonal real', is proved on the gate list of the
+   model (compared with qclib's Ldmcsu on every run) for EVERY number of controls k >= 2 and EVERY control pattern: the circuit
+   applies U to the target iff the controls match the pattern (C04_ldmcsu_plain, C04_ldmcsu_hconj) - the four dirty-ancilla
+   V-chains (one of them inverted) on their exact qubit lists are C05's theorems for every size, and the 2x2 premise
+   (A^dagger X A X)^2 = U is C04_gate_a_fourth_root (checked numerically per run).  The recursion step of Qdmcu (Barenco 7.5) is
+   a theorem; the Ldmcu ladder, the eigenbasis branch, LdMcSpecialUnitary, MCU and the multi-target variant are evaluated. *)
 From Coq Require Import Reals Lra List Bool Arith.
 From Coquelicot Require Import Complex.
-From QV Require Import Sem Mat2 Toff2 Chain Barenco GateA.
+From QV Require Import Sem Mat2 Toff2 Chain Barenco GateA McxModel LinearMcx LdmcsuModel.
 Open Scope R_scope.
 
 (* CV(c->t) ; MCX(rest->c) ; CV^dagger(c->t) ; MCX(rest->c) ; C^{rest}V(t)  =  U on t controlled on rest /\ c,
@@ -26,3 +30,21 @@ Print Assumptions C04_gate_a_fourth_root.
 
 Example ex_gate_a_hyp : (3/5) * (3/5) + 0 * 0 + (4/5) * (4/5) = 1 /\ 0 < 3/5 + 1.
 Proof. split; lra. Qed.
+
+Open Scope nat_scope.
+(* Ldmcsu, secondary diagonal real: no Hadamard conjugation *)
+Theorem C04_ldmcsu_plain : forall (k : nat), 2 <= k -> forall (pat : list bool) (A Ad Hd U : mat2),
+  mmul Ad A = I2 -> mmul A Ad = I2 ->
+  mmul (mmul (mmul Ad Xm) (mmul A Xm)) (mmul (mmul Ad Xm) (mmul A Xm)) = U ->
+  forall psi, lrun A Ad Hd (ldmcsu k pat false) psi = appf (fun b => if pmatch pat k b then U else I2) k psi.
+Proof. intros k Hk pat A Ad Hd U H1 H2 H3 psi. now apply (ldmcsu_spec_plain k Hk pat A Ad Hd U U). Qed.
+Print Assumptions C04_ldmcsu_plain.
+
+(* Ldmcsu, main diagonal real: Hadamard conjugation of the target, (A^dagger X A X)^2 = H U H *)
+Theorem C04_ldmcsu_hconj : forall (k : nat), 2 <= k -> forall (pat : list bool) (A Ad Hd U U' : mat2),
+  mmul Ad A = I2 -> mmul A Ad = I2 ->
+  mmul (mmul (mmul Ad Xm) (mmul A Xm)) (mmul (mmul Ad Xm) (mmul A Xm)) = U' ->
+  mmul Hd Hd = I2 -> mmul Hd (mmul U' Hd) = U ->
+  forall psi, lrun A Ad Hd (ldmcsu k pat true) psi = appf (fun b => if pmatch pat k b then U else I2) k psi.
+Proof. intros k Hk pat A Ad Hd U U' H1 H2 H3 H4 H5 psi. now apply (ldmcsu_spec_hconj k Hk pat A Ad Hd U U'). Qed.
+Print Assumptions C04_ldmcsu_hconj.
